@@ -24,6 +24,8 @@ pub const FAULTS: &[&str] = &[
     "rock x with", "rock x like", "roll x into", "say roll", "put x at into y", "say -",
     // (a') the last element of a list is missing after its separator word
     "rock x with 4, 5, and", "let x be with 1, 2, and", "say 1 plus 2, and", "fun taking 1, and", "say fun taking 1, 2 &", "rock x with 1 &", "rock x with 1, 2 'n'", "fun takes k and", "fun takes k, and", "say 1 plus 2, and\nsay 3",
+    // (a3) a poetic literal made of separators only
+    "x is ,", "x was, ,", "rock x like ,", "x's,", "x is .", "x is . ,",
     // (a'') a poetic literal that ends in a free-standing hyphen
     "x is a -", "x is cold without a -", "rock x like a -", "the zed's a lovely -",
     // (b) required keyword removed
@@ -102,6 +104,11 @@ pub const MULTILINE_FAULTS: &[(&str, u32)] = &[
     ("say \"a\nb\"'s", 1),
     ("put \"a\nb\"'s 5 into", 1),
     ("cast (a\n\nb) 5's", 2),
+    // a statement on the line of else
+    ("if c\nsay 1\nelse say 2", 2),
+    ("if c\nsay 1\nelse put 1 into x", 2),
+    ("if c\nelse say 2", 1),
+    ("if c\nsay 1\nelse if c", 2),
 ];
 
 pub struct C13 {
